@@ -2,6 +2,7 @@
 import itertools
 import random
 
+import numpy as np
 import torch
 
 import vlib
@@ -192,7 +193,7 @@ def oracle_pad(c, o):
 # metamorphic families on the implementation (no model side): each returns the list of results for all encodings
 def gen_meta(rng, tier):
     cases = []
-    kinds = ['fft', 'findiff', 'functional', 'wavelet', 'sliding_window', 'reduce_view', 'filter', 'prewhiten']
+    kinds = ['fft', 'fft_matrices', 'fft_matrices', 'findiff', 'functional', 'wavelet', 'sliding_window', 'reduce_view', 'filter', 'prewhiten']
     for _ in range(40 if tier == 'quick' else 600):
         nd = rng.randint(2, 4)
         shape = [rng.randint(2, 5) for _ in range(nd)]
@@ -226,6 +227,30 @@ def impl_meta(c):
                 res = torch.view_as_real(y)
                 (yb,) = ops.FastFourierOp(dim=tuple(a - nd for a in axes))(torch.stack([xc, 3 * xc]))
                 batch_ok = bool(torch.allclose(yb, torch.stack([y, 3 * y]), atol=1e-12))
+            elif kind == 'fft_matrices':
+                # recon / encoding sizes given per axis: every ORDER of the axes with correspondingly permuted sizes (and both signs) is the same
+                # operator, and equals an independent numpy pad + centred FFT
+                rs = [c['shape'][a] for a in axes]
+                es = [r + d for r, d in zip(rs, [1, 2, 0][:len(axes)])]
+                xc = x.to(torch.complex128)
+                outs = []
+                for perm in itertools.permutations(range(len(axes))):
+                    op = ops.FastFourierOp(dim=tuple(enc[i] for i in perm), recon_matrix=[rs[i] for i in perm], encoding_matrix=[es[i] for i in perm])
+                    (y,) = op(xc)
+                    (z,) = op.adjoint(y)
+                    outs.append(torch.cat([torch.view_as_real(y).flatten(), torch.view_as_real(z).flatten()]))
+                if any(o.shape != outs[0].shape or not torch.allclose(o, outs[0], atol=1e-12) for o in outs[1:]):
+                    raise AssertionError('axis order with correspondingly permuted sizes changes the result')
+                xn = x.numpy().astype(np.complex128)
+                pad = [(0, 0)] * nd
+                for a, r, e in zip(axes, rs, es):
+                    before = e // 2 - r // 2
+                    pad[a] = (before, e - r - before)
+                ref = np.fft.fftshift(np.fft.fftn(np.fft.ifftshift(np.pad(xn, pad), axes=axes), axes=axes, norm='ortho'), axes=axes)
+                yy = outs[0][:2 * ref.size].reshape(*ref.shape, 2).numpy()
+                if not np.allclose(yy[..., 0] + 1j * yy[..., 1], ref, atol=1e-10):
+                    raise AssertionError('FastFourierOp with recon/encoding matrices differs from numpy pad + centred FFT')
+                res = outs[0]
             elif kind == 'findiff':
                 op = ops.FiniteDifferenceOp(dim=tuple(enc), mode='forward', pad_mode='circular')
                 (res,) = op(x)
@@ -298,6 +323,9 @@ def oracle_meta(c, o):
     rs = o['results']
     if c['kind'] == 'prewhiten' and rs and not isinstance(rs[0], dict):
         return None if max(abs(v) for v in rs[0][1]) < 1e-5 else f'prewhiten_kspace of a stack along `other` differs from the stacked results by {max(abs(v) for v in rs[0][1]):.3g}'
+    for r in rs:
+        if isinstance(r, dict) and r.get('raises') == 'AssertionError':
+            return f'{c["kind"]}: {r.get("msg")} (shape {c["shape"]}, axes {c["axes"]})'
     if all(isinstance(r, dict) for r in rs) and len({r['raises'] for r in rs}) == 1:
         return None  # the configuration is outside the operation's domain for every encoding alike (e.g. odd size for ptwt)
     for enc, r in zip(_encodings(c['axes'], len(c['shape'])), rs):
